@@ -112,3 +112,122 @@ def guard_facts(fn, blk, st, sd=None, loops=True):
                 seen.add(fact_str(f))
                 out.append(f)
     return out
+
+
+# ---------------------------------------------------------------------------------------------------------------
+# a small refutation procedure for conjunctions of guard facts (used to discard infeasible paths)
+def expand_locals(fn, facts_list, depth=0):
+    """replace truth facts on a local bool that has a single initialiser by the literals of that initialiser"""
+    if depth > 3:
+        return facts_list
+    inits = {}
+    multi = set()
+    for b, j, st in fn.cfg.stmts():
+        s_ = st['s']
+        if s_.get('k') == 'DeclStmt':
+            for v in s_['decls']:
+                if v.get('init') is not None:
+                    inits[v['id']] = v['init']
+        for x in walk(s_):
+            from .core import assign_parts as _ap
+            ap = _ap(x)
+            if ap and strip(ap[0]).get('k') == 'DeclRefExpr':
+                multi.add(strip(ap[0])['id'])
+    out = []
+    for f in facts_list:
+        if f[0] == 'truth':
+            e = strip(f[1])
+            if e.get('k') == 'DeclRefExpr' and not e.get('parm') and e.get('id') in inits and e.get('id') not in multi:
+                out += expand_locals(fn, literals(inits[e['id']], f[2]), depth + 1)
+                continue
+        if f[0] == 'or':
+            out.append(('or', [expand_locals(fn, alt, depth + 1) for alt in f[1]]))
+            continue
+        out.append(f)
+    return out
+
+
+def _atom(f):
+    """('t', text, pol) for truth facts, ('c', text, lo, hi) integer range for comparisons with a constant, else None"""
+    if f[0] == 'truth':
+        return ('t', show(strip(f[1])), bool(f[2]))
+    if f[0] == 'cmp':
+        n = cmp_norm(f)
+        if n and isinstance(n[2], int):
+            op, e, c = n
+            txt = show(strip(e))
+            INF = 10 ** 30
+            if op == '<':
+                return ('c', txt, -INF, c - 1)
+            if op == '<=':
+                return ('c', txt, -INF, c)
+            if op == '>':
+                return ('c', txt, c + 1, INF)
+            if op == '>=':
+                return ('c', txt, c, INF)
+            if op == '==':
+                return ('c', txt, c, c)
+            if op == '!=':
+                return ('ne', txt, c)
+    return None
+
+
+def unsat(facts_list):
+    """True when the conjunction of the facts is certainly contradictory (sound: unknown facts are ignored)"""
+    truth = {}
+    rng = {}
+    nes = []
+    ors = []
+    for f in facts_list:
+        if f[0] == 'or':
+            ors.append(f)
+            continue
+        a = _atom(f)
+        if a is None:
+            continue
+        if a[0] == 't':
+            if truth.get(a[1], a[2]) != a[2]:
+                return True
+            truth[a[1]] = a[2]
+        elif a[0] == 'c':
+            lo, hi = rng.get(a[1], (-10 ** 30, 10 ** 30))
+            lo, hi = max(lo, a[2]), min(hi, a[3])
+            if lo > hi:
+                return True
+            rng[a[1]] = (lo, hi)
+        else:
+            nes.append(a)
+    for _, txt, c in nes:
+        if rng.get(txt) == (c, c):
+            return True
+    base = [f for f in facts_list if f[0] != 'or']
+    for o in ors:
+        if all(unsat(base + list(alt)) for alt in o[1]):
+            return True
+    return False
+
+
+def neg_fact(f):
+    """the negation of one fact as a conjunction (list) of facts; None when it cannot be expressed"""
+    if f[0] == 'cmp':
+        return [('cmp', NEG[f[1]], f[2], f[3])] if f[1] in NEG else None
+    if f[0] == 'truth':
+        return [('truth', f[1], not f[2])]
+    if f[0] == 'or':
+        out = []
+        for alt in f[1]:
+            if len(alt) == 1:
+                n = neg_fact(alt[0])
+                if n is None:
+                    return None
+                out += n
+            else:
+                alts = []
+                for l in alt:
+                    n = neg_fact(l)
+                    if n is None:
+                        return None
+                    alts.append(n)
+                out.append(('or', alts))
+        return out
+    return None
